@@ -5,12 +5,62 @@ use crate::mach::{self, RunEnd};
 use emulator_2a_lib::machine::{Bus, Machine, State};
 use refmodel::isa::{self, Cpu, Mem, Outcome};
 
-/// REF memory: own RAM array; everything >= 0xF0 is delegated to a *real* `Bus` (whose address
-/// map and board semantics are the subject of C10/C14, not of C01).
+/// The I/O page of the reference side.
+/// `Ref`: REF-BUS (the map-based address map, validated against the real `Bus` by C10) with the real
+/// `Board` behind 0xF0-0xF3 (its semantics are C14's subject) - used wherever the run starts from a
+/// known bus state, so that an address-decoding fault of the real `Bus` shows through instructions.
+/// `Real`: a clone of a real `Bus` taken out of a running machine (C05's resume check), where the
+/// hidden registers of the bus cannot be rebuilt.
+#[derive(Clone)]
+pub enum IoSide {
+    Ref(refmodel::bus::RBus<crate::c10::RealBoard>),
+    Real(Bus),
+}
+
+impl IoSide {
+    pub fn read(&self, a: u8) -> u8 {
+        match self {
+            IoSide::Ref(r) => r.read(a),
+            IoSide::Real(b) => b.read(a),
+        }
+    }
+    pub fn write(&mut self, a: u8, v: u8) {
+        match self {
+            IoSide::Ref(r) => r.write(a, v),
+            IoSide::Real(b) => b.write(a, v),
+        }
+    }
+    pub fn output_fe(&self) -> u8 {
+        match self {
+            IoSide::Ref(r) => r.out[0],
+            IoSide::Real(b) => b.output_fe(),
+        }
+    }
+    pub fn output_ff(&self) -> u8 {
+        match self {
+            IoSide::Ref(r) => r.out[1],
+            IoSide::Real(b) => b.output_ff(),
+        }
+    }
+    pub fn board(&self) -> &emulator_2a_lib::machine::Board {
+        match self {
+            IoSide::Ref(r) => &r.board.0,
+            IoSide::Real(b) => b.board(),
+        }
+    }
+    pub fn key_edge_enabled(&self) -> bool {
+        match self {
+            IoSide::Ref(r) => r.key_edge_enabled(),
+            IoSide::Real(b) => b.is_key_edge_int_enabled(),
+        }
+    }
+}
+
+/// REF memory: own RAM array; everything >= 0xF0 goes to the reference I/O side.
 #[derive(Clone)]
 pub struct BusMem {
     pub ram: [u8; 240],
-    pub bus: Bus,
+    pub bus: IoSide,
 }
 
 impl Mem for BusMem {
@@ -72,13 +122,10 @@ impl Case {
         m
     }
     pub fn refmem(&self) -> BusMem {
-        let mut bus = Bus::new();
-        bus.input_fc(self.inputs[0]);
-        bus.input_fd(self.inputs[1]);
-        bus.input_fe(self.inputs[2]);
-        bus.input_ff(self.inputs[3]);
-        bus.board_mut().set_digital_input1(self.di1);
-        BusMem { ram: self.ram, bus }
+        let mut r = refmodel::bus::RBus::new(crate::c10::RealBoard(emulator_2a_lib::machine::Board::new()));
+        r.input = self.inputs;
+        r.board.0.set_digital_input1(self.di1);
+        BusMem { ram: self.ram, bus: IoSide::Ref(r) }
     }
 }
 
@@ -102,6 +149,14 @@ fn bus_obs(b: &Bus) -> ([u8; 16], bool) {
         io[i] = b.read(0xF0 + i as u8);
     }
     (io, b.is_key_edge_int_enabled())
+}
+
+fn side_obs(b: &IoSide) -> ([u8; 16], bool) {
+    let mut io = [0u8; 16];
+    for i in 0..16 {
+        io[i] = b.read(0xF0 + i as u8);
+    }
+    (io, b.key_edge_enabled())
 }
 
 /// Compare the architectural state of the real machine with REF after one instruction.
@@ -134,7 +189,7 @@ pub fn compare(m: &Machine, c: &Cpu, mem: &BusMem) -> Option<(String, String)> {
     if m.bus().output_fe() != mem.bus.output_fe() || m.bus().output_ff() != mem.bus.output_ff() {
         return Some(("output".into(), format!("outputs expected fe={:#x} ff={:#x} observed fe={:#x} ff={:#x}", mem.bus.output_fe(), mem.bus.output_ff(), m.bus().output_fe(), m.bus().output_ff())));
     }
-    if m.bus().board() != mem.bus.board() || bus_obs(m.bus()) != bus_obs(&mem.bus) {
+    if m.bus().board() != mem.bus.board() || bus_obs(m.bus()) != side_obs(&mem.bus) {
         return Some(("io".into(), format!("I/O side differs: board expected {:?} observed {:?}", mem.bus.board(), m.bus().board())));
     }
     None
